@@ -1111,3 +1111,19 @@ Proof. reflexivity. Qed.
 Lemma alias_test_vacuous (A D : Type) (dist : A -> A -> D) (z : D) :
   (forall x, dist x x = z) -> forall prev cur : A, dist cur (if false then prev else cur) = z.
 Proof. intros H prev cur. apply H. Qed.
+
+(* ---- variational compression: the stopping test is scale invariant ---- *)
+(* syntactically: the generated measure is homogeneous of degree 0 in the scale of the object *)
+Lemma variational_error_degree_zero : hdeg2 variational_error_expr = Some 0%Z.
+Proof. reflexivity. Qed.
+
+(* semantically, in any structure with a multiplication, division and square root obeying the two laws of the
+   positive reals used here: replacing the object by c times itself (distance -> c*D, squared norm -> c*c*S) does
+   not change the measure, hence not the decision `error < vrtol` *)
+Lemma variational_error_scale_invariant (K : Type) (kmul kdiv : K -> K -> K) (ksqrt : K -> K) :
+  (forall c x, ksqrt (kmul (kmul c c) x) = kmul c (ksqrt x)) ->
+  (forall c a b, kdiv (kmul c a) (kmul c b) = kdiv a b) ->
+  forall c dist normsq,
+    heval kdiv ksqrt (kmul c dist) (kmul (kmul c c) normsq) variational_error_expr =
+    heval kdiv ksqrt dist normsq variational_error_expr.
+Proof. intros H1 H2 c dist normsq. cbn [variational_error_expr heval]. rewrite H1, H2. reflexivity. Qed.
